@@ -13,6 +13,7 @@ import (
 	"fmt"
 	"os"
 	"testing"
+	"time"
 )
 
 type input struct {
@@ -101,6 +102,9 @@ func Assert(name string, c bool) {
 		fmt.Printf("ZZ-ASSERT-FAIL %s\n", name)
 	}
 }
+
+// Slow marks code that takes its time (see the engine's intrinsic of the same name).
+func Slow() { time.Sleep(30 * time.Millisecond) }
 
 func Cover(name string, c bool) {
 	if c {
